@@ -156,6 +156,11 @@ class KnownFindings:
         if os.path.exists(p):
             with open(p) as f:
                 self.entries = json.load(f).get('findings', [])
+        # fragments written while a check is being built (merged into known_findings.json before release)
+        for frag in sorted(glob.glob(os.path.join(env.VERIF, 'known_findings.d', '*.json'))):
+            with open(frag) as f:
+                doc = json.load(f)
+            self.entries.extend(doc if isinstance(doc, list) else doc.get('findings', []))
         self.by_id = {e['id']: e for e in self.entries}
 
     def is_open(self, kfid):
